@@ -17,7 +17,10 @@ RULE = (
     'after a binary operator; after ~; parenthesised) x operator '
     'spellings; (c) ite, constants in every documented spelling, both '
     'comment forms, tabs/newlines, @n / @-n for existing nodes; (d) random '
-    'formulas from the grammar up to depth 5; (e) add_expr(to_expr(u)) == '
+    'formulas from the grammar up to depth 5, alternating between two '
+    'managers with opposite orders and interfaces (the translator is '
+    'shared), with refused formulas (undeclared name, unknown node, syntax '
+    'error at the end) and collections in between; (e) add_expr(to_expr(u)) == '
     'u for all functions of <=3 variables under all orders and 4 '
     'variables sampled/all; dd.bdd and dd.autoref. Non-trivial: the '
     'formula contains at least one operator; distinct by formula text.')
@@ -58,7 +61,8 @@ def plan(tier, seed):
         rule=RULE,
         require=['matrix_formulas', 'paren_forms', 'binder_formulas',
                  'random_formulas', 'roundtrips', 'constant_spellings',
-                 'node_reference_formulas', 'comment_formulas'],
+                 'node_reference_formulas', 'comment_formulas',
+                 'refused_formulas_in_between'],
         assumptions=[
             'vf/formula.py reads the grammar as documented in doc.md '
             '(precedence list, left associativity, binders extend right)',
@@ -237,10 +241,28 @@ def random_(ctx, spec):
     names = ['x', "y'", '_z', 'w1'][:spec['n']]
     order = names[:]
     rng.shuffle(order)
-    m = Mgr(ctx, names, order, spec['auto'], rng)
+    m1 = Mgr(ctx, names, order, spec['auto'], rng)
+    # a second manager with another order and the other interface: the
+    # translator is shared by all managers of the process
+    order2 = order[::-1] if len(order) > 1 else order[:]
+    m2 = Mgr(ctx, names, order2, not spec['auto'], rng)
     bad = 0
     for k in range(spec['count']):
         depth = 1 + k % 5
+        m = m1 if rng.random() < 0.75 else m2
+        if rng.random() < 0.1:
+            # a formula that is refused after part of it was translated
+            # (undeclared name, unknown node, or syntax error at the end)
+            other = m1 if rng.random() < 0.5 else m2
+            tail = rng.choice((' /\\ undeclared_name', ' \\/ @987654',
+                               ' /\\ (', ' => ~'))
+            s0 = formula.gen(rng, names, 1 + k % 3, other.nodes) + tail
+            try:
+                other.bdd.add_expr(s0)
+            except Exception:
+                ctx.counters['refused_formulas_in_between'] += 1
+            else:
+                ctx.counters['damaged_formula_accepted'] += 1
         s = formula.gen(rng, names, depth, m.nodes)
         bad += not m.judge(s, 'random_formulas', also_paren=(k % 3 == 0))
         if bad > 4:
@@ -248,9 +270,11 @@ def random_(ctx, spec):
         if k < 2:
             ctx.sample(dict(kind='random', formula=s, order=order))
         if k % 100 == 99:
-            # keep the manager small; nodes for @n are held
-            m.raw.collect_garbage()
-    monitors.check_structure(m.raw)
+            # keep the managers small; nodes for @n are held
+            m1.raw.collect_garbage()
+            m2.raw.collect_garbage()
+    monitors.check_structure(m1.raw)
+    monitors.check_structure(m2.raw)
 
 
 def roundtrip(ctx, spec):
